@@ -78,6 +78,7 @@ Proof.
     all: destruct y, stage as [|[|?]]; try discriminate.
     all: try (destruct (has_term c); repeat match type of Hs with (match ?b with _ => _ end) = _ => destruct b; try discriminate end;
               inversion Hs; subst; cbn [works set_works upd_st set_ph]; (eapply Nat.le_trans; [eapply cnt_setw_le; [exact Ef | reflexivity]|]); auto; fail).
+    all: destruct (tfe_blocked c s) eqn:Etb; [discriminate|].
     all: match type of Hs with context[match ph ?S2 with _ => _ end] => set (s2 := S2) in * end.
     all: assert (Hw2 : cnt (works s2) <= l)
            by (assert (E2 : works s2 = setw j WDone (works s)) by (unfold s2; destruct err; [destruct (c_term c); try reflexivity; destruct (residual _); reflexivity|reflexivity]);
@@ -138,6 +139,7 @@ Proof.
     all: destruct y, stage as [|[|?]]; try discriminate.
     all: try (destruct (has_term c); repeat match type of Hs with (match ?b with _ => _ end) = _ => destruct b eqn:?; try discriminate end;
               inversion Hs; subst; cbn [ph residual upd_st set_works]; (try rewrite Eph in HI); rewrite ?Eph; first [exact HI|intros _; exact I|intros X; congruence]; fail).
+    all: destruct (tfe_blocked c s) eqn:Etb; [discriminate|].
     all: match type of Hs with context[match ph ?S2 with _ => _ end] => set (s2 := S2) in * end.
     all: assert (H2 : residual s2 <> None -> match ph s2 with PRun | PBack _ => False | _ => True end).
     all: try (unfold s2; destruct err as [e|]; [destruct (c_term c)|]; cbn [ph residual upd_st set_works];
@@ -433,6 +435,7 @@ Proof.
     all: try (destruct (has_term c); repeat match type of Hs with (match ?b with _ => _ end) = _ => destruct b eqn:?; try discriminate end; injection Hs as <-;
               (eapply (H_setw s); [exact HI|exact Ef|reflexivity|reflexivity|reflexivity|first [left; cbn; congruence|right; apply no_back_flush; discriminate]|cbn; tauto]); fail).
     (* the terminal closure's future resolved *)
+    all: destruct (tfe_blocked c s) eqn:Etb; [discriminate|].
     all: cbv zeta in Hs.
     all: set (s1 := set_works s (setw j WDone (works s))) in *.
     all: assert (I1 : OInv s1) by (eapply (H_setw s); [exact HI|exact Ef|reflexivity|reflexivity|reflexivity|left; reflexivity|cbn; tauto]).
@@ -501,6 +504,7 @@ Proof.
       destruct (find j (works s)) as [[| | | |]|] eqn:Ef; try discriminate; destruct stage as [|[|?]]; try discriminate.
     all: try (destruct (has_term c); repeat match type of H with (match ?b with _ => _ end) = _ => destruct b eqn:?; try discriminate end; injection H as <-;
               split; cbn; rewrite ?Eph; auto; try discriminate; try (intros _; right; discriminate); fail).
+    all: destruct (tfe_blocked c s) eqn:Etb; [discriminate|].
     all: cbv zeta in H.
     all: set (s1 := set_works s (setw j WDone (works s))) in *.
     all: assert (I1 : FInv c s1) by (split; cbn; rewrite ?Eph; auto; try discriminate).
@@ -546,4 +550,16 @@ Proof.
   pose proof (C13_structured c s (RVec items) s' Hs) as X. rewrite Hterm in X. destruct X as [Xr _]. split; [|exact Xr].
   cbn [step] in Hs. destruct (ph s) eqn:Eph; try discriminate. destruct HI as [F1 F2]. destruct (F1 Eph) as [A|B]; auto.
   destruct (F2 B) as [Y|Y]; congruence.
+Qed.
+
+(* "in-flight futures are dropped unfinished": once an error is stored no fallible future completes any more - the acceptor takes no completion
+   of a try_for_each closure future (stage 1), nor of an item future of collect into Result (stage 0), in a state that holds a residual *)
+Theorem C14_no_completion_after_error c s stg j e s' : step c s (EDone stg j e) = Some s' ->
+  (c_term c = TTryForEach -> stg = 1 -> residual s = None) /\ (c_term c = TCollectRes -> stg = 0 -> residual s = None).
+Proof.
+  intros H. unfold step in H. split; intros Ht ->.
+  - destruct (ph s); try discriminate; destruct (find j (works s)) as [[| | | |]|]; try discriminate.
+    all: unfold tfe_blocked in H; rewrite Ht in H; destruct (residual s); [discriminate|reflexivity].
+  - destruct (ph s); try discriminate; destruct (find j (works s)) as [[| | | |]|]; try discriminate.
+    all: unfold has_term in H; rewrite Ht in H; cbn in H; destruct e; destruct (residual s); try discriminate; reflexivity.
 Qed.
